@@ -179,6 +179,12 @@ func (m *memCarrier) SetReadDeadline(t time.Time) error {
 	return nil
 }
 
+func (m *memCarrier) closeCalls() int {
+	m.mu.Lock()
+	defer m.mu.Unlock()
+	return m.closes
+}
+
 func (m *memCarrier) failWrites() {
 	m.mu.Lock()
 	m.failing = true
